@@ -332,7 +332,7 @@ def add_scenarios(repo: Repo) -> RuleRun:
     Mesh._add_vertices always hands over a list (possibly empty), so the mixed use of the
     ``slave_patches=None`` form after a slave duplicate (a path assembly never takes, and which
     creates a fresh master vertex on every call) is deliberately not part of the scenarios."""
-    r = RuleRun(PROP, "C05.ADD-SCENARIOS", floor=9, what="VertexList.add on symbolic insertion sequences: sharing iff same position and same slave-patch set, dense indexes")
+    r = RuleRun(PROP, "C05.ADD-SCENARIOS", floor=14, what="VertexList.add on symbolic insertion sequences: sharing iff same position and same slave-patch set, dense indexes, a shared vertex carries the projections of all its corners")
     from .c18 import dist_hook
 
     vl_cls = repo.cls("lists.vertex_list.VertexList")
@@ -343,20 +343,25 @@ def add_scenarios(repo: Repo) -> RuleRun:
         vl.set("vertices", [])
         vl.set("duplicated", [])
 
+        vertex_cls = repo.cls("items.vertex.Vertex")
+
         def hook(ev, call: ast.Call, name):
-            if name in ("Vertex.from_point", "Vertex") or (name or "").endswith("Vertex.from_point"):
+            # the constructor call inside Vertex.from_point (cls(position, index)); from_point itself is the repository's code
+            if name in ("cls", "Vertex") and len(call.args) == 2:
                 args = [ev.eval(a) for a in call.args]
-                v = Obj(f"V{args[1]}")
-                v.set("position", args[0].get("position") if isinstance(args[0], Obj) else args[0])
+                v = Obj(f"V{args[1]}", cls=vertex_cls)
+                v.set("position", args[0])
                 v.set("index", args[1])
+                v.set("projected_to", [])
                 return v
             return dist_hook()(ev, call, name)
 
         out = []
-        for pos, patches in seq:
+        for entry in seq:
+            pos, patches = entry[0], entry[1]
             pt = Obj("point")
             pt.set("position", pos)
-            pt.set("projected_to", [])
+            pt.set("projected_to", list(entry[2]) if len(entry) > 2 else [])
             ev = Evaluator(repo=repo, module=add.module, call_hook=hook)
             try:
                 v = ev.call_funcinfo(add, [vl, pt, None if patches is None else list(patches)])
@@ -378,12 +383,30 @@ def add_scenarios(repo: Repo) -> RuleRun:
         ("several points and patch sets interleaved", [(1, ["a"]), (2, ["a"]), (1, []), (2, ["a"]), (3, []), (1, ["a"]), (3, [])]),
         ("slave set at another point is not reused", [(1, ["a"]), (2, ["a"]), (2, [])]),
     ]
+    # projections declared on corners that share a vertex: the vertex carries the union, whatever the order, each label once,
+    # and the label lists of the operations' own points are left as they were
+    scenarios += [
+        ("projected corner added after a plain one", [(1, [], []), (1, [], ["terrain"])]),
+        ("projected corner added before a plain one", [(1, [], ["terrain"]), (1, [], [])]),
+        ("two corners projected to different surfaces", [(1, [], ["terrain"]), (1, [], ["walls"]), (2, [], [])]),
+        ("the same projection declared on both corners", [(1, [], ["terrain"]), (1, [], ["terrain"])]),
+        ("projection on the slave copy only", [(1, ["s"], ["terrain"]), (1, [], []), (1, ["s"], ["walls"])]),
+    ]
     for label, seq in scenarios:
+        seq = [tuple(e) for e in seq]
         res, vl = run_sequence(seq)
         if isinstance(res, tuple):
             r.bad(add, f"VertexList.add raises {res[1]} for the sequence '{label}': {seq}", add.node, key=label)
             continue
         problems = []
+        want_labels = {}
+        for e, v in zip(seq, res):
+            want_labels.setdefault(id(v), (v, set()))[1].update(e[2] if len(e) > 2 else [])
+        for v, want in want_labels.values():
+            got = v.get("projected_to") if v.has("projected_to") else None
+            if not isinstance(got, list) or set(got) != want or len(got) != len(set(got)):
+                problems.append(f"vertex {v._name} is projected to {got}; the corners it stands for declare {sorted(want)}")
+        seq = [e[:2] for e in seq]
         # expected partition: same vertex iff same position and same patch set (None == 'not a slave corner': shares with the master copy)
         def keyof(pos, patches):
             return (pos, frozenset(patches) if patches else frozenset())
